@@ -64,9 +64,19 @@ func basicSetup(mode string, pre bool) func(w *gwWorld) error {
 }
 
 func C09(c *core.Ctx, replay string) {
-	c.Rule = "TLC simulates behaviours of the abstract gateway spec S3Gw/S3GwBasic in versioned mode (put, copy, delete, delete-by-version incl. null and never-issued ids, get-by-version, list-versions, enable/suspend; empty bucket and a bucket with an object that predates versioning); each behaviour is replayed over HTTP against real gateways with a versioning directory (xattr and sidecar metadata stores) and after EVERY step the real replies and the real state (ListObjectVersions with paging, GET by every version id, GET by key) are compared with the spec's prediction. Non-trivial: a behaviour with at least 2 version-creating steps."
-	c.Assumptions = []string{"version-creating writes to one key are issued sequentially by one client (ULID order within one millisecond across processes is not relied upon)",
+	c.Rule = "TLC simulates behaviours of the abstract gateway spec S3Gw/S3GwBasic in versioned mode (put, copy, delete, delete-by-version incl. null and never-issued ids, get-by-version, list-versions, enable/suspend; empty bucket and a bucket with an object that predates versioning); each behaviour is replayed over HTTP against real gateways with a versioning directory (xattr and sidecar metadata stores) and after EVERY step the real replies and the real state (ListObjectVersions with paging, GET by every version id, GET by key) are compared with the spec's prediction. Uploads of one key that OVERLAP each other: every interleaving of the stretches of two (thorough: three) PutObject requests between their hook sites, as enumerated by TLC from the implementation-shaped model VersionOverlap, is forced on a real gateway and the client-visible history (acknowledgements, every listed version read back byte-exact with its ETag, the current version) judged by TLC against VersionOverlap's rule. Non-trivial: a behaviour with at least 2 version-creating steps; a history whose uploads overlap."
+	c.Assumptions = []string{"in the replayed behaviours version-creating writes to one key are issued sequentially by one client (ULID order within one millisecond across processes is not relied upon); overlapping uploads are judged by the version SET and the current version, not by the order of the listing",
 		"directory-marker keys are excluded (unversioned by design)"}
+	if replay != "" {
+		var rc struct {
+			Part string `json:"part"`
+			Line voLine `json:"line"`
+		}
+		if core.LoadReplayCase(replay, &rc) == nil && rc.Part == "overlap" {
+			c09Overlap(c, &rc.Line)
+			return
+		}
+	}
 	// exhaustive: the spec's own invariants and the C09 action property on a small model
 	mc, err := tlc.Run(c.Scratch, tlc.Opts{Module: "S3GwBasic", Workers: 8, MemQueue: true, Timeout: c.PickDur(3, 10),
 		CfgText: basicCfg("SpecMC", "versioned", true, 0, `{"k1"}`, `{"A", "B"}`, "INVARIANT TypeOK\nPROPERTY VersionsPreserved\nCONSTRAINT Bound\nVIEW View\n")})
@@ -135,6 +145,7 @@ func C09(c *core.Ctx, replay string) {
 	c.Extra["behaviours"] = total
 	c09History(c)
 	c09Burst(c)
+	c09Overlap(c, nil)
 }
 
 // c09History: TLC enumerates EVERY word of n letters over {put, delete, toggle versioning,
